@@ -44,6 +44,8 @@ pub mod c20;
 pub mod c16;
 #[cfg(feature = "codecs")]
 pub mod c17;
+#[cfg(all(not(kani), feature = "codecs"))]
+pub mod c17n;
 
 pub fn registry() -> Vec<(&'static str, fn())> {
     let mut v = Vec::new();
@@ -81,5 +83,7 @@ pub fn registry() -> Vec<(&'static str, fn())> {
     v.extend_from_slice(c04::arb::LIST);
     #[cfg(feature = "codecs")]
     { v.extend_from_slice(c16::LIST); v.extend_from_slice(c17::LIST); }
+    #[cfg(all(not(kani), feature = "codecs"))]
+    v.extend_from_slice(c17n::LIST);
     v
 }
